@@ -220,3 +220,23 @@ Proof.
   split; [exact Ht|]. split; [rewrite (keeps_cap _ _ K); exact C0|].
   split; [rewrite (keeps_ckind _ _ K); exact K0|]. rewrite Hl, (keeps_cap _ _ K), C0. reflexivity.
 Qed.
+
+(** * after EVERY step of a history: a prefix of a fitting history is a fitting history *)
+Lemma spec_run_fits_app c : forall ops1 l ops2 l', spec_run_fits c l (ops1 ++ ops2) = Some l' ->
+  exists l1, spec_run_fits c l ops1 = Some l1 /\ spec_run_fits c l1 ops2 = Some l'.
+Proof.
+  induction ops1 as [|o ops1 IH]; intros l ops2 l' H; cbn [app spec_run_fits] in *.
+  - exists l. split; [reflexivity|exact H].
+  - destruct (spec_step_fits c l o) as [l0|]; [|discriminate]. cbn [obind2] in *. apply IH. exact H.
+Qed.
+
+Theorem history_refines_every_step c ck ops1 ops2 l' : cap_ok c -> Forall op_wf (ops1 ++ ops2) ->
+  Forall (arg_ok c) (ops1 ++ ops2) -> spec_run_fits c [] (map sop_of (ops1 ++ ops2)) = Some l' ->
+  exists l1 s1, spec_run_fits c [] (map sop_of ops1) = Some l1 /\ run (default_str c ck) ops1 = Ok s1 /\
+                contents s1 = l1 /\ get_size s1 = slen l1 /\ terminator s1 = 0.
+Proof.
+  intros Hc W A H. rewrite map_app in H. destruct (spec_run_fits_app c _ _ _ _ H) as (l1 & H1 & _).
+  apply Forall_app in W as (W1 & _). apply Forall_app in A as (A1 & _).
+  destruct (history_refines c ck ops1 l1 Hc W1 A1 H1) as (s1 & E & C & G & T & _).
+  exists l1, s1. tauto.
+Qed.
